@@ -246,6 +246,10 @@ pub fn run(out: &mut Out, tier: &str, rng: &mut Rng) {
         a.extend_from_slice(b"unduND159");
         product(out, &a, 3, true);
     }
+    out.comment("non-ASCII look-alikes of well-formed subtags");
+    for b in ["ko", "sk", "is", "kok", "ksh", "Kits", "Sinh", "Kana", "SK", "IS", "KZ", "419", "001", "1996", "biske", "kiswa123", "pinyin", "1ksi"] {
+        for s in crate::gen::lookalikes(b) { all4(out, s.as_bytes(), false); }
+    }
     out.comment("G1 boundary-class strings of length 4..9");
     product(out, &CLASS19, 4, true);
     let a8 = [b'A', b'z', b'0', b'9', b'@', b'-', 0u8, 0x80];
